@@ -9,6 +9,10 @@ package main
 // and serves exactly the checkpointed contents.
 
 import (
+	"github.com/oasisprotocol/oasis-core/go/common/crypto/hash"
+
+	"verifharness/internal/coqout"
+
 	"bytes"
 	"context"
 	"errors"
@@ -240,6 +244,155 @@ func runRestoreChild(self, dir, cpDir string, c Case, env ...string) (int, strin
 	return -1, err.Error()
 }
 
+// effective number of chunks restored before the interrupted call (same rule as the child)
+func effectiveJ(r *Restore, n int) int {
+	j := r.J
+	if r.Last == "finalize" || j > n {
+		j = n
+	}
+	if r.Last == "chunk" && j >= n {
+		j = n - 1
+	}
+	if r.Last == "start" {
+		j = 0
+	}
+	return j
+}
+
+// badgerTwin restores the checkpoint completely into a scratch badger database behind the
+// recording wrapper and renders the restore as Verif.NodeDB.Multipart operations.
+type twinInfo struct {
+	hist  []string // operations before the interrupted call
+	last  string   // the interrupted call
+	known string
+}
+
+func badgerTwin(c Case, cpDir string) (*twinInfo, error) {
+	ctx := context.Background()
+	r := c.Restore
+	dir, _ := os.MkdirTemp("", "verif-crash-rtwin")
+	defer os.RemoveAll(dir)
+	inner, err := openDB("badger", dir)
+	if err != nil {
+		return nil, err
+	}
+	defer inner.Close()
+	rec := &recDB{NodeDB: inner}
+	cr := newCoqRec()
+	fc, meta, err := loadCheckpoint(cpDir)
+	if err != nil {
+		return nil, err
+	}
+	ti := &twinInfo{}
+	var known []string
+	const preRid, resRid = 2, 3
+	ids := func(hs []hash.Hash) []int {
+		var out []int
+		for _, h := range hs {
+			out = append(out, cr.nid(h))
+		}
+		return out
+	}
+	if r.Pre {
+		rec.puts, rec.removed = nil, nil
+		if err = preHistory(rec); err != nil {
+			return nil, err
+		}
+		reach, inl := cr.reach(inner, preRoot)
+		ti.hist = append(ti.hist,
+			fmt.Sprintf("MBase (OCommit 1 1 %d None [(1, 1); (6, 2)] %s [] %s %s)", preRid, nlist(ids(rec.puts)), nlist(reach), nlist(inl)),
+			fmt.Sprintf("MBase (OFinalize 1 [%d])", preRid))
+		known = append(known, fmt.Sprintf("(1, %d)", preRid))
+	}
+	known = append(known, fmt.Sprintf("(%d, %d)", restoreVersion, resRid))
+	ti.known = coqout.List(known)
+	if err = rec.StartMultipartInsert(restoreVersion); err != nil {
+		return nil, err
+	}
+	rs, _ := checkpoint.NewRestorer(rec)
+	_ = rs.StartRestore(ctx, meta)
+	n := len(meta.Chunks)
+	var chunkPuts [][]int
+	for i := 0; i < n; i++ {
+		rec.puts = nil
+		if err = restoreChunks(rec, fc, meta, rs, i, i+1); err != nil {
+			return nil, err
+		}
+		chunkPuts = append(chunkPuts, ids(rec.puts))
+	}
+	ri := &rootInfo{ver: restoreVersion, typ: 1, cont: map[int]int{1: 1}, hash: meta.Root.Hash}
+	reach, inl := cr.reach(inner, ri)
+	chunk := func(i int) string {
+		return fmt.Sprintf("MChunk %d 1 %d [(1, 1)] %s %s %s", restoreVersion, resRid, nlist(chunkPuts[i]), nlist(reach), nlist(inl))
+	}
+	j := effectiveJ(r, n)
+	if r.Last != "start" {
+		ti.hist = append(ti.hist, fmt.Sprintf("MStart %d", restoreVersion))
+	}
+	for i := 0; i < j; i++ {
+		ti.hist = append(ti.hist, chunk(i))
+	}
+	switch r.Last {
+	case "start":
+		ti.last = fmt.Sprintf("MStart %d", restoreVersion)
+	case "chunk":
+		ti.last = chunk(j)
+	case "abort":
+		ti.last = "MAbort"
+	case "finalize":
+		ti.last = fmt.Sprintf("MFinalize %d [%d]", restoreVersion, resRid)
+	}
+	return ti, nil
+}
+
+// completed durable steps of the interrupted restore call at a badger crash point ("" = the
+// call completed); see coq/NodeDB/Multipart.v
+func restoreStepsAt(last, point string) int {
+	name := point
+	if i := strings.LastIndexByte(point, '#'); i >= 0 {
+		name = point[:i]
+	}
+	switch last + "/" + name {
+	case "start/":
+		return 1
+	case "chunk/badger.commit.afterLogFlush":
+		return 1
+	case "chunk/badger.commit.afterBatchFlush":
+		return 2
+	case "chunk/":
+		return 3
+	case "abort/badger.cleanMultipart.afterBatchFlush":
+		return 1
+	case "abort/":
+		return 2
+	case "finalize/badger.finalize.afterBatchFlush":
+		return 1
+	case "finalize/badger.finalize.afterMetaCommit":
+		return 2
+	case "finalize/badger.cleanMultipart.afterBatchFlush":
+		return 3
+	case "finalize/":
+		return 4
+	}
+	return -1
+}
+
+func restoredStatus(ndb api.NodeDB, root node.Root, nkeys int) int {
+	if !ndb.HasRoot(root) {
+		return 0
+	}
+	st := readRestored(ndb, root, nkeys)
+	switch {
+	case st == "exact":
+		return 1
+	case strings.Contains(st, "node not found"):
+		return 2
+	case strings.Contains(st, "root not found"):
+		return 3
+	}
+	return 9
+}
+
 func runRestoreCase(self string, c Case) result {
 	res := result{notes: map[string]int{}}
 	preRoot.hash = contHash(preRoot.typ, preRoot.cont)
@@ -252,6 +405,13 @@ func runRestoreCase(self string, c Case) result {
 		return res
 	}
 	res.notes[fmt.Sprintf("chunks:%d", len(meta.Chunks))]++
+	var twin *twinInfo
+	if c.Backend == "badger" {
+		if twin, err = badgerTwin(c, cpDir); err != nil {
+			res.viol = append(res.viol, "badger twin restore failed: "+err.Error())
+			twin = nil
+		}
+	}
 	// dry run
 	dirD, _ := os.MkdirTemp("", "verif-crash-rdry")
 	list := dirD + ".points"
@@ -292,6 +452,23 @@ func runRestoreCase(self string, c Case) result {
 			}
 			defer ndb.Close()
 			last, has := ndb.GetLatestVersion()
+			if k := restoreStepsAt(r.Last, p); twin != nil && k >= 0 {
+				lastS := "None"
+				if has {
+					lastS = fmt.Sprintf("(Some %d)", last)
+				}
+				var sts []string
+				if r.Pre {
+					pst := 0
+					if ndb.HasRoot(preRoot.root(1)) {
+						pst = stCode(readRoot(ndb, preRoot))
+					}
+					sts = append(sts, fmt.Sprintf("((1, 2), %d)", pst))
+				}
+				sts = append(sts, fmt.Sprintf("((%d, 3), %d)", restoreVersion, restoredStatus(ndb, meta.Root, r.NKeys)))
+				res.coq = append(res.coq, fmt.Sprintf("(in_r (%s, (%s), %d%%nat, %s), out_r ((%d, %s), 0, %s))", coqout.List(twin.hist), twin.last, k, twin.known,
+					ndb.GetEarliestVersion(), lastS, coqout.List(sts)))
+			}
 			fully := has && last == restoreVersion
 			if fully {
 				// only the final Finalize may make the version visible, and then it must be complete
